@@ -80,6 +80,10 @@ def _cases(draw, tier):
     if lecmult:
         opts['crit'][0][2] = [draw(st.sampled_from([0, 1, 2, 3])),
                               draw(st.sampled_from([1, 2, 3]))]
+    elif name in ('mincost', 'minsqcost') and not opts['twopl'] and pct(draw) < 40:
+        # a lecturer multiplier on a ONE-sided run: there are no lecturer ranks, it weighs nothing
+        opts['crit'][0][2] = [draw(st.sampled_from([1, 1, 2, 3])),
+                              draw(st.sampled_from([1, 2, 3, 7]))]
     choices = draw(strategies.choice_lists) if mode != 'cbc' else []
     decoy = _lp.draw_decoy(draw, inst)
     _ret = {'inst': inst, 'opts': opts, 'choices': choices, 'mode': mode, 'salt': salt}
